@@ -17,6 +17,9 @@ EXPLANATION = (
     "with C15 (reverse paths invalidate the cached lengths). Not decided: index arithmetic for all window shapes, "
     "involution and connectivity of the result (history/value dependent)."
 )
+TECHNIQUE = (
+    "static analysis (no execution): field effects of every reverse() evaluated symbolically (swap/negate); alias-aware structural rules for reversal order and re-linking; window confinement of validator indices; cache coherence"
+)
 ASSUMPTIONS = [
     "Window confinement is decided for the index expressions passed to the backing path's validators; element writes through Subpath.__getitem__ use _numeric_index, whose range is not bounded statically (negative indices) and is reported as not decided.",
 ]
